@@ -13,6 +13,7 @@
 #include "opentelemetry/sdk/trace/simple_processor.h"
 #include "opentelemetry/sdk/trace/span_data.h"
 #include "opentelemetry/sdk/trace/tracer.h"
+#include "opentelemetry/sdk/trace/tracer_context.h"
 #include "opentelemetry/sdk/trace/tracer_provider.h"
 #include "opentelemetry/trace/span_context_kv_iterable.h"
 #include "opentelemetry/trace/span_startoptions.h"
@@ -438,7 +439,36 @@ void body(const Case &c)
       else
         procs.emplace_back(new sdktrace::SimpleSpanProcessor(std::move(e)));
     }
-    sdktrace::TracerProvider prov(std::move(procs), Resource::Create({{"service.name", "vsim"}}));
+    // every public way to the same pipeline: processor list, a single processor, a ready-made
+    // context, processors added after construction
+    std::unique_ptr<sdktrace::TracerProvider> provp;
+    auto res = Resource::Create({{"service.name", "vsim"}});
+    switch ((int)c.knob("prov_route", 0))
+    {
+      case 1:
+        if (procs.size() == 1)
+        {
+          provp.reset(new sdktrace::TracerProvider(std::move(procs[0]), res));
+          break;
+        }
+        // fall through
+      case 2: {
+        std::unique_ptr<sdktrace::TracerContext> cx(new sdktrace::TracerContext(std::move(procs), res));
+        provp.reset(new sdktrace::TracerProvider(std::move(cx)));
+        break;
+      }
+      case 3: {
+        std::vector<std::unique_ptr<sdktrace::SpanProcessor>> first;
+        first.push_back(std::move(procs[0]));
+        provp.reset(new sdktrace::TracerProvider(std::move(first), res));
+        for (size_t i = 1; i < procs.size(); ++i)
+          provp->AddProcessor(std::move(procs[i]));
+        break;
+      }
+      default:
+        provp.reset(new sdktrace::TracerProvider(std::move(procs), res));
+    }
+    sdktrace::TracerProvider &prov = *provp;
     g_tracer   = prov.GetTracer("span-engine", "1.0");
     w.resource = &prov.GetResource();
     w.scope    = &static_cast<sdktrace::Tracer *>(g_tracer.get())->GetInstrumentationScope();
@@ -788,6 +818,7 @@ void generate(const std::string &, Rng &wl, Rng &fl, Case &c)
   int nspans           = (int)wl.range(1, kMaxSpans);
   int ntasks           = (int)wl.range(1, vsim::tier_scale() > 1 && wl.chance(0.3) ? 3 : 2);
   c.set("nproc", nproc);
+  c.set("prov_route", wl.chance(0.5) ? 0 : (int64_t)wl.range(1, 3));
   c.set("layout", layout);
   c.set("nspans", nspans);
   c.set("max_batch", wl.range(1, 4));
